@@ -91,7 +91,8 @@ def main():
                 out["samples"].append({"idx": i, "seed": seed, "machine": mname, "knobs": case.get("knobs"), "ops": case["ops"]})
             if res.violation is not None:
                 if len(out["violations"]) < 40:
-                    out["violations"].append({"idx": i, "seed": seed, "case": case, "violation": res.violation, "digest": res.digest})
+                    out["violations"].append({"idx": i, "seed": seed, "case": case, "violation": res.violation, "digest": res.digest,
+                                              "tag": m.case_tag(case) if hasattr(m, "case_tag") else ""})
                 else:
                     out["violations_dropped"] = out.get("violations_dropped", 0) + 1
         scratch = job.get("scratch")
